@@ -280,6 +280,8 @@ def check_mpl_2d(case, ctx: Ctx):
                 require(type(r).__name__ == "Rectangle", "map_cell_not_a_rectangle", f"cell ({i},{j}) drawn as {type(r).__name__}")
                 require(close(r.get_x(), bx[i][0]) and close(r.get_y(), by[j][0]) and close(r.get_width(), bx[i][1] - bx[i][0]) and close(r.get_height(), by[j][1] - by[j][0]), "map_cell_geometry",
                         f"cell ({i},{j}): rect ({r.get_x()!r},{r.get_y()!r},{r.get_width()!r},{r.get_height()!r}) expected ({bx[i][0]!r},{by[j][0]!r},{bx[i][1] - bx[i][0]!r},{by[j][1] - by[j][0]!r})")
+                if opts.get("cmap_normalize") == "log" and data[i, j] <= 0:
+                    continue  # (no logarithm, no colour: only the cell itself is required)
                 seen.append((data[i, j], luminance(r.get_facecolor())))
             seen.sort()
             for (v1, l1), (v2, l2) in zip(seen[:-1], seen[1:]):
@@ -375,6 +377,16 @@ def mpl_2d_cases(draw, tier="quick"):
     if kind == "image" and draw(st.booleans()) and any(x > 0 for x in hgen.flat(spec["freq"])):
         opts["cmap_normalize"] = "log"  # (colours are not checked; the image array and the histogram are)
         _make_empty_bin(spec)
+    if kind == "map" and draw(st.integers(0, 3)) == 0 and any(x > 0 for x in hgen.flat(spec["freq"])):
+        opts["cmap_normalize"] = "log"  # (an empty bin has no colour on this scale, but it is still a cell)
+        _make_empty_bin(spec)
+    if kind == "image" and draw(st.integers(0, 4)) == 0:
+        # equally wide bins with a gap between them: not a regular grid, no image
+        ax = spec["axes"][draw(st.integers(0, 1))]
+        n = len(ax["pairs"])
+        if n >= 2:
+            ax.clear()
+            ax.update({"form": "static", "pairs": [[2.0 * i, 2.0 * i + 1.0] for i in range(n)], "incl": True})
     return {"kind": kind, "spec": spec, "opts": opts, "negative_cell": draw(st.one_of(st.none(), st.none(), st.lists(st.integers(0, 5), min_size=2, max_size=2)))}
 
 
@@ -454,7 +466,7 @@ def check_other(case, ctx: Ctx):
             ctx.nt(z.size >= 6)
     elif be == "ascii":
         f = np.asarray(h.frequencies, dtype=float)
-        if f.sum() <= 0:
+        if f.sum() < 0:
             return
         width = opts.get("width", 80)
         buf = io.StringIO()
@@ -463,8 +475,9 @@ def check_other(case, ctx: Ctx):
         lines = buf.getvalue().splitlines()
         require(len(lines) == len(f), "ascii_line_count", f"{len(lines)} lines for {len(f)} bins")
         for i, ln in enumerate(lines):
-            want = int(round(f[i] / f.sum() * width))
-            shares = f[i] / f.sum() * width
+            total = f.sum() or 1.0  # (an all-zero histogram: no marks at all)
+            want = int(round(f[i] / total * width))
+            shares = f[i] / total * width
             got = len(ln) - len(ln.lstrip("#")) if not ln.startswith("#") else len(ln.split(" ")[0])
             got = ln.count("#")
             ok = got == want or (abs(shares % 1 - 0.5) < 1e-9 and abs(got - shares) <= 0.5 + 1e-9)
@@ -593,6 +606,57 @@ def tick_cases(draw, tier="quick"):
     return {"level": level, "lo": lo, "span": span, "bins": draw(st.integers(1, 6))}
 
 
+# ---------------------------------------------------------------------------------
+# time ticks through the plots: the axis range is the one shown
+
+
+def check_plot_ticks(case, ctx: Ctx):
+    from physt.histogram1d import Histogram1D
+    from physt.plotting.common import TimeTickHandler
+
+    plt = plt_()
+    unit = case["unit"]
+    edges = np.array([unit * k for k in case["edges"]], dtype=float)
+    h = Histogram1D(edges, np.array([(i % 3) + 1 for i in range(len(edges) - 1)]))
+    before = snapshot(h)
+    level = ("sec", unit) if unit < 60 else ("min", unit // 60)
+    opts = {"tick_handler": TimeTickHandler(level)}
+    lo, hi = float(edges[0]), float(edges[-1])
+    if case["xlim"] is not None:
+        lo, hi = lo + case["xlim"][0] * unit, hi + case["xlim"][1] * unit
+        opts["xlim"] = (lo, hi)
+    ctx.label("kind_" + case["kind"], "xlim_given" if case["xlim"] is not None else "xlim_auto")
+    try:
+        ax = ctx.call(f"plot {case['kind']} with time ticks", h.plot, case["kind"], backend="matplotlib", **opts)
+        ticks = [float(t) for t in ax.get_xticks()]
+        labels = [t.get_text() for t in ax.get_xticklabels()]
+        shown = tuple(float(x) for x in ax.get_xlim())
+        require(close(shown[0], lo) and close(shown[1], hi), "axis_range", f"x axis shows {shown}, expected ({lo}, {hi})")
+        want = [k * float(unit) for k in range(math.ceil(lo / unit - 1e-9), math.floor(hi / unit + 1e-9) + 1)]
+        require(len(ticks) == len(want) and all(close(a, b) for a, b in zip(ticks, want)), "plot_time_ticks",
+                f"ticks {ticks} expected the multiples of {unit} s inside [{lo}, {hi}]: {want}")
+        require(len(labels) == len(ticks), "label_count", f"{len(labels)} labels for {len(ticks)} ticks")
+    finally:
+        plt.close("all")
+    require(snap_equal(before, snapshot(h)), "plot_modified_histogram", lambda: snap_diff(before, snapshot(h)))
+    ctx.nt(case["xlim"] is not None and case["xlim"] != [0, 0])
+
+
+@st.composite
+def plot_tick_cases(draw, tier="quick"):
+    n = draw(st.integers(1, 5))
+    start = draw(st.integers(-3, 4))
+    steps = draw(st.lists(st.sampled_from([1, 2, 3]), min_size=n, max_size=n))
+    edges = [start]
+    for s_ in steps:
+        edges.append(edges[-1] + s_)
+    xlim = draw(st.one_of(st.none(), st.tuples(st.sampled_from([-2, -1, 0, 0.5]), st.sampled_from([0, 1, 2.5, -0.5])).map(list)))
+    if xlim is not None and edges[0] + xlim[0] >= edges[-1] + xlim[1]:
+        xlim = [-1, 1]
+    return {"unit": draw(st.sampled_from([1800, 60, 15, 600])), "edges": edges, "xlim": xlim,
+            "kind": draw(st.sampled_from(["bar", "step", "line", "scatter", "fill"]))}
+
+
 FINDINGS = []
 
 SUBS = [
@@ -600,6 +664,8 @@ SUBS = [
     Sub("mpl_2d", lambda tier: mpl_2d_cases(tier), check_mpl_2d, quick=200, thorough=1000),
     Sub("other", lambda tier: other_cases(tier), check_other, quick=300, thorough=1500),
     Sub("ticks", lambda tier: tick_cases(tier), check_ticks, quick=600, thorough=4000),
+    Sub("plot_ticks", lambda tier: plot_tick_cases(tier), check_plot_ticks, quick=120, thorough=600),
 ]
 
 RULE += ' Also: density=True with cumulative=True (heights proportional to the cumulative sums); maps with a cell pushed below zero by a negative fill weight.'
+RULE += ' plot_ticks: the five 1-D matplotlib kinds with tick_handler=TimeTickHandler(unit) and either the default or an explicit (wider / narrower) xlim: the ticks are the multiples of the unit inside the range the axis shows; non-trivial = an explicit xlim that differs from the bin span.'
